@@ -1568,7 +1568,8 @@ func (s *Server) contractIDFromParam(param *params.Param, root ...util.Uint256) 
 }
 
 // contractScriptHashFromParam returns the contract script hash by hex contract hash, address, id or native contract name.
-func (s *Server) contractScriptHashFromParam(param *params.Param) (util.Uint160, *neorpc.Error) {
+// If the height of a historic call is given, the contract ID is resolved in the state of that height.
+func (s *Server) contractScriptHashFromParam(param *params.Param, historicHeight ...uint32) (util.Uint160, *neorpc.Error) {
 	var result util.Uint160
 	if param == nil {
 		return result, neorpc.ErrInvalidParams
@@ -1588,6 +1589,22 @@ func (s *Server) contractScriptHashFromParam(param *params.Param) (util.Uint160,
 	id, err := strconv.ParseInt(nameOrHashOrIndex, 10, 32)
 	if err != nil {
 		return result, neorpc.NewInvalidParamsError(fmt.Sprintf("Invalid contract identifier (name/hash/index is expected) : %s", err.Error()))
+	}
+	if len(historicHeight) > 0 {
+		sr, err := s.chain.GetStateModule().GetStateRoot(historicHeight[0])
+		if err != nil {
+			return result, neorpc.ErrUnknownStateRoot
+		}
+		hashKey := makeStorageKey(s.chain.NativeManagementID(), native.MakeContractIDKey(int32(id)))
+		hashBytes, err := s.chain.GetStateModule().GetState(sr.Root, hashKey)
+		if err != nil {
+			return result, neorpc.ErrUnknownContract
+		}
+		result, err = util.Uint160DecodeBytesBE(hashBytes)
+		if err != nil {
+			return result, neorpc.NewInternalServerError(fmt.Sprintf("invalid historical contract hash: %s", err))
+		}
+		return result, nil
 	}
 	result, err = s.chain.GetContractScriptHash(int32(id))
 	if err != nil {
@@ -2219,7 +2236,7 @@ func (s *Server) getInvokeFunctionParams(reqParams params.Params, currIndex ...u
 	if len(reqParams) < 2 {
 		return nil, false, neorpc.ErrInvalidParams
 	}
-	scriptHash, responseErr := s.contractScriptHashFromParam(reqParams.Value(0))
+	scriptHash, responseErr := s.contractScriptHashFromParam(reqParams.Value(0), currIndex...)
 	if responseErr != nil {
 		return nil, false, responseErr
 	}
@@ -2424,15 +2441,15 @@ func (s *Server) invokeContractVerifyHistoric(reqParams params.Params) (any, *ne
 	if len(reqParams) < 2 {
 		return nil, neorpc.ErrInvalidParams
 	}
-	scriptHash, tx, invocationScript, respErr := s.getInvokeContractVerifyParams(reqParams[1:])
+	scriptHash, tx, invocationScript, respErr := s.getInvokeContractVerifyParams(reqParams[1:], nextH-1)
 	if respErr != nil {
 		return nil, respErr
 	}
 	return s.runScriptInVM(trigger.Verification, invocationScript, scriptHash, tx, nil, &nextH, false)
 }
 
-func (s *Server) getInvokeContractVerifyParams(reqParams params.Params) (util.Uint160, *transaction.Transaction, []byte, *neorpc.Error) {
-	scriptHash, responseErr := s.contractScriptHashFromParam(reqParams.Value(0))
+func (s *Server) getInvokeContractVerifyParams(reqParams params.Params, currIndex ...uint32) (util.Uint160, *transaction.Transaction, []byte, *neorpc.Error) {
+	scriptHash, responseErr := s.contractScriptHashFromParam(reqParams.Value(0), currIndex...)
 	if responseErr != nil {
 		return util.Uint160{}, nil, nil, responseErr
 	}
@@ -2453,7 +2470,7 @@ func (s *Server) getInvokeContractVerifyParams(reqParams params.Params) (util.Ui
 	invocationScript := bw.Bytes()
 
 	signersParam := reqParams.Value(2)
-	tx, _, respErr := s.mockTx([]byte{byte(opcode.RET) /*need something in script*/}, signersParam, nil)
+	tx, _, respErr := s.mockTx([]byte{byte(opcode.RET) /*need something in script*/}, signersParam, nil, currIndex...)
 	if respErr != nil {
 		return util.Uint160{}, nil, nil, respErr
 	}
